@@ -593,6 +593,12 @@ impl endpoint::Session for Session {
         &self.session_stop_reason
     }
 
+    fn fail_unsettled_deliveries(&mut self) {
+        for relay in self.link_by_input_handle.values() {
+            relay.fail_unsettled_deliveries();
+        }
+    }
+
     fn connection_stop_reason(&self) -> &Arc<OnceLock<ConnectionStopReason>> {
         &self.connection_stop_reason
     }
